@@ -360,13 +360,48 @@ where
     | .atom "ok-oneway" => some .okOneway
     | _ => none
 
+/-- the first client's request reaches the implementation, the reply cannot be written (peer gone, `handle` fails);
+    the second connection is served as if the first had never been -/
+def sendcloseLine (idl : IDL) (steps : List SStep) : Sx :=
+  if verdict idl != .ok then tagged "sendclose" [.atom "nobuild"] else
+  match steps with
+  | [.gen _ m1 _ a1 s1, .gen _ m2 mode2 a2 s2] =>
+    (match idl.methods.find? (·.name == m1), idl.methods.find? (·.name == m2) with
+     | some me1, some me2 =>
+       let o1 := predictCall idl me1 .more a1 s1
+       let md : Mode := if mode2 == "more" then .more else .call
+       let o2 := predictCall idl me2 md a2 s2
+       tagged "sendclose" [
+         tagged "first" [],
+         tagged "srv1" [.atom (if o1.wire.isEmpty then "ok" else "err")],
+         tagged "second" (o2.client.map clientSx),
+         tagged "seen" ((o1.seen ++ o2.seen).map Sx.ofBool),
+         tagged "wire" (o2.wire.map jx),
+         tagged "srv2" [.atom (if o2.srvOk then "ok" else "err")]]
+     | _, _ => tagged "sendclose" [.atom "bad-case"])
+  | _ => tagged "sendclose" [.atom "bad-case"]
+
 def modelLine (c : Sx) : Option Sx :=
   match c with
+  | .list [.atom "sendclose", ifaces, steps] =>
+    (parseSession (.list [.atom "session", ifaces, steps])).bind fun (idls, st) => idls.head?.map fun i => sendcloseLine i st
   | .list (.atom "session" :: _) => (parseSession c).map fun (idls, steps) => sessionLine idls steps
   | .list [.atom "helper-batch"] => some (tagged "helper-batch" [.atom "ok"])
+  | .list [.atom "tosource2", _, _, s1, s2] =>
+    -- two helper calls in one process: the first failure ends the process
+    (match parseSrc s1, parseSrc s2 with
+     | some p1, some p2 =>
+       let good (p : Option IDL × String) : Bool := match p.1 with
+         | some i => verdict i != .panic
+         | none => false
+       let st (p : Option IDL × String) : String := if p.1.isSome then "panic" else "err"
+       if !(good p1) then some (tagged "tosource2" [.atom (st p1), .atom "f", .atom "f"])
+       else if !(good p2) then some (tagged "tosource2" [.atom (st p2), .atom "t", .atom "f"])
+       else some (tagged "tosource2" [.atom "ok", .atom "t", .atom "t"])
+     | _, _ => none)
   | .list [.atom "regen", .atom which, _, src2] =>
     -- generating again replaces the earlier output: only the second text counts
-    (parseSrc src2).map fun p => match frontLine (if which == "tosource" then "tosource" else "build") p with
+    (parseSrc src2).map fun p => match frontLine (if which == "tosource" || which == "tosource-older" then "tosource" else "build") p with
       | .list (.atom _ :: rest) => tagged "regen" rest
       | x => x
   | .list [.atom "desc", src] =>
@@ -473,6 +508,10 @@ def predC08 (c o : Sx) : String :=
     | some (some i, _), some mn, some mode, some args, some script =>
       (match o with
        | .list [.atom "call", .atom "nobuild"] => "ok"
+       | .list (.atom "call" :: .list (.atom "req" :: .atom "unterminated" :: _) :: _) =>
+         "fail request-on-the-wire-not-terminated-by-NUL"
+       | .list (.atom "call" :: .list (.atom "req" :: .atom "bad-json" :: _) :: _) =>
+         "fail request-on-the-wire-is-not-json"
        | _ =>
          match i.methods.find? (·.name == mn), parseCallObs o with
          | some m, some obs => verdictOf (P_C08_call i m mode args script obs)
@@ -489,6 +528,20 @@ def predC08 (c o : Sx) : String :=
          | some obs => verdictOf (P_C08_raw i req obs)
          | none => "fail unexpected-raw-observation")
     | _, _ => "fail unparsable-case"
+  | .list [.atom "sendclose", ifaces, steps] =>
+    (match parseSession (.list [.atom "session", ifaces, steps]), o with
+     | some _, .list [.atom "sendclose", .atom "nobuild"] => "ok"
+     | some ([idl], [.gen _ _ _ _ _, .gen _ m2 _ a2 s2]), .list [.atom "sendclose", _, _, .list (.atom "second" :: outs), .list (.atom "seen" :: seen), _, _] =>
+       (match idl.methods.find? (·.name == m2), outs.mapM (fun x => match parseSObs (.list [.atom "g", x]) with
+                                                               | some (.g [c]) => some c
+                                                               | _ => none) with
+        | some me2, some couts =>
+          if !(wellTyped idl.env (.struct me2.input) a2 && s2.all (actionWellTyped idl me2)) then "ok"
+          else (match checkClient s2 couts with
+            | some r => "fail second-connection-after-a-client-that-left: " ++ r
+            | none => if seen.any (· matches .atom "f") then "fail second-connection-after-a-client-that-left: server-saw-different-arguments" else "ok")
+        | _, _ => "fail unexpected-sendclose-observation")
+     | _, _ => "fail unexpected-sendclose-observation")
   | .list (.atom "session" :: _) =>
     (match parseSession c, o with
      | some _, .list [.atom "session", .atom "nobuild"] => "ok"
@@ -509,7 +562,15 @@ def predC08 (c o : Sx) : String :=
   | .list [.atom "helper-batch"] => "ok"
   | .list (.atom "frontpath" :: _) => "ok"
   | .list (.atom "options" :: _) => "ok"
-  | .list (.atom "regen" :: _) => "ok"
+  | .list [.atom "regen", .atom which, _, src2] =>
+    -- bindings that were not regenerated do not belong to the definition any more
+    (match parseSrc src2, o with
+     | some (some i, _), .list [.atom "regen", _, .atom status, .atom emitted, .atom same] =>
+       if wellFormedB i && safeRawIdent i && status == "ok" && emitted == "t" && same == "f"
+       then "fail bindings-do-not-belong-to-the-current-definition entry=" ++ which
+       else "ok"
+     | _, _ => "ok")
+  | .list (.atom "tosource2" :: _) => "ok"
   | .list (.atom "desc" :: _) => "ok"
   | _ => "fail unparsable-case"
 
@@ -551,6 +612,16 @@ def predC09 (c o : Sx) : String :=
            | .list [.atom e, .atom s] => (e == "t", if s == "-" then none else some (s == "t"))
            | _ => (false, none)))
      | _, _ => "fail unexpected-frontmany-observation")
+  | .list [.atom "tosource2", r1, r2, s1, s2] =>
+    (match parseSrc s1, parseSrc s2, o with
+     | some (some i1, _), some (some i2, _), .list [.atom "tosource2", .atom status, .atom e1, .atom e2] =>
+       if !(wellFormedB i1 && wellFormedB i2 && safeRawIdent i1 && safeRawIdent i2) then "ok"
+       else if status != "ok" || e1 != "t" || e2 != "t" then
+         "fail front-end-tosource-helper-failed-on-second-call-in-one-process status=" ++ status ++ " emitted=" ++ e1 ++ e2 ++
+           " paths=" ++ ((Sx.asStr r1).getD "?") ++ "," ++ ((Sx.asStr r2).getD "?")
+       else "ok"
+     | some _, some _, .list (.atom "tosource2" :: _) => "ok"
+     | _, _, _ => "fail unexpected-tosource2-observation")
   | .list [.atom "regen", .atom which, _, src2] =>
     (match parseSrc src2, o with
      | some (i?, _), .list [.atom "regen", _, .atom status, .atom emitted, .atom same] =>
@@ -606,6 +677,7 @@ def predC09 (c o : Sx) : String :=
   | .list (.atom "call" :: _) => "ok"
   | .list (.atom "raw" :: _) => "ok"
   | .list (.atom "session" :: _) => "ok"
+  | .list (.atom "sendclose" :: _) => "ok"
   | _ => "fail unparsable-case"
 
 end GenDrv
